@@ -152,6 +152,24 @@ def srvStep (s : Srv) (args : List String) : Srv × String :=
         | some x => connReady c x.2
         | none => false
       (s, showFdList "ready" (ready.map (·.fd)))
+  | "respondmany" :: items =>
+    -- `<fd>,<v>,<code>,<bodyhex>` each: `enqueue_responses`
+    let parsed := items.mapM fun (t : String) =>
+      match t.splitOn "," with
+      | [fd, v, code, b] =>
+        let v? := match v with | "1.0" => some Version.http10 | "1.1" => some Version.http11 | _ => none
+        let c? := match code.toNat? with | some n => StatusCode.all.find? (fun (c : StatusCode) => c.num = n) | none => none
+        match fd.toNat?, v?, c?, unhex' b with
+        | some fd, some v, some c, some b =>
+          let inst := match findClient s.conns fd with | some c => c.inst | none => 0
+          some ((⟨fd, inst⟩ : Token), Response.build v c [.setBody b])
+        | _, _, _, _ => none
+      | _ => none
+    match parsed with
+    | none => (s, "bad-op")
+    | some l =>
+      let (s', r) := respondMany s l
+      (s', (match r with | .ok => "ok" | .underflow => "underflow") ++ " " ++ showInterest s')
   | "flushb" :: budgets =>
     -- `<fd>:<budget>[x]`
     let parsed := budgets.mapM fun (t : String) =>
